@@ -1,6 +1,7 @@
 package graphql
 
 import (
+	"github.com/graphql-go/graphql/verifhook"
 	"container/list"
 	"hash/fnv"
 	"strconv"
@@ -135,6 +136,8 @@ func (c *PlanCache) Get(schema *Schema, query, operationName string) PlanResult 
 		if pr, ok := c.lookup(schema, key); ok {
 			return pr
 		}
+		verifhook.Count(verifhook.PlanCacheGetMiss)
+		verifhook.Yield(verifhook.PlanCacheGetMiss)
 		pr := planAndValidate(schema, query, operationName)
 		c.store(schema, key, pr)
 		return pr
@@ -173,6 +176,8 @@ func (c *PlanCache) Get(schema *Schema, query, operationName string) PlanResult 
 		pr.SynthArgs = synthArgs
 		return pr
 	}
+	verifhook.Count(verifhook.PlanCacheGetMiss)
+	verifhook.Yield(verifhook.PlanCacheGetMiss)
 	if vr := ValidateDocument(schema, normDoc, nil); !vr.IsValid {
 		pr := PlanResult{Errors: vr.Errors}
 		c.store(schema, cacheKey, pr)
